@@ -1366,6 +1366,26 @@ def _work_h(task):
                     return cache[key]
 
                 A.case(dm.text(toks), exp, mk, {"family": "h", "ctx": ctx})
+    # round 8: the same redeclaration after an `_Atomic(type-name)` SPECIFIER
+    # (the specifier is a type specifier, 6.7.2.4: the T that follows can only
+    # be the declared name), alone and as the first of two declarators
+    for seq in seqs:
+        for two in (False, True):
+            if two and param:
+                continue
+            spec = _atomic_spec(dm.S_INT)
+            try:
+                if param:
+                    toks, exp = dm.place(ctx, Entity("T", seq, spec), False, with_T=True)
+                else:
+                    dts = (Dtor("T", seq, None, None),) + ((Dtor("q", (Ptr(),), None, None),) if two else ())
+                    toks, exp = dm.place(ctx, Decln(spec, dts), False, with_T=True)
+            except dm.Unrenderable:
+                A.skipped += 1
+                continue
+            A.case(dm.text(toks), exp,
+                   lambda r, seq=seq, two=two: f"h:{ctx}:atomic-spec:{_h_shape(seq)}{'+second' if two else ''}:{r[0]}",
+                   {"family": "h", "ctx": ctx})
     return A.out()
 
 
